@@ -150,6 +150,24 @@ def gen_cases(rng, tier):
             # the same race with a caller whose Via branch has no magic cookie (RFC 2543 matching): every fifth one
             if n % 5 == 0 and any(e.startswith("cancel") for e in s):
                 cases.append(["r%d" % n, "c12", "uas", "lbranch", ",".join(acts), "1", "race", ",".join(model)]); n += 1
+    # "after which accept and reject report termination": also for a final response the application built while the INVITE was still
+    # pending (create_response before the CANCEL / BYE, respond_failure / respond_success after it)
+    for s, code in ((["cancel", "reject:486"], 486), (["bye", "reject:486"], 486), (["cancel", "accept"], 200), (["bye", "accept"], 200),
+                    (["prov", "cancel", "reject:603"], 603), (["cancelx", "cancel", "reject:486"], 486), (["reject:486"], 486), (["accept"], 200)):
+        acts = ["0:inv", "400:prep:%d" % code]
+        t = 1000
+        for e in s:
+            if e == "accept":
+                acts += ["%d:accept" % t, "%d:ack" % (t + 300)]
+            elif e.startswith("reject"):
+                acts += ["%d:%s" % (t, e), "%d:ackf" % (t + 300)]
+            elif e == "cancelx":
+                acts.append("%d:cancel:x" % t)
+            else:
+                acts.append("%d:%s%s" % (t, e, ":180" if e == "prov" else ""))
+            t += 1000
+        acts.append("%d:wait" % (t + 45000))
+        cases.append(["rb%d" % n, "c12", "uas", "-", ",".join(acts), "1", "race", ",".join(s)]); n += 1
     return cases
 
 
@@ -303,6 +321,11 @@ def oracle(case, impl):
         first = case[7].split(",")[0]
         if first in ("cancel", "bye") and sorted(finals) != [487]:
             return ["%s arrived while the INVITE was pending but the INVITE was answered %r" % (first, sorted(finals))]
+        # "... after which accept and reject report termination"
+        if first in ("cancel", "bye") and sorted(finals) == [487]:
+            for word in ("accept", "reject"):
+                if any(n == word + "-result:ok" for n, _ in evs):
+                    return ["the %s that matched the pending INVITE was answered and the INVITE got its 487, yet the later %s reported success (events: %s)" % (first.upper(), word, case[7])]
     if kind == "ok2xx":
         t0 = int(case[7]); ack = None if case[8] == "-" else int(case[8])
         if ack is not None and ack >= t0 + 32000:
